@@ -19,7 +19,7 @@ import (
 // ReadStep scripts one Read call of the simulated reader.
 type ReadStep struct {
 	N      int  `json:"n"`                // bytes to deliver at most (0: zero-length read)
-	Inject bool `json:"inject,omitempty"` // return (0, injected error) instead; the reader is healthy afterwards
+	Inject bool `json:"inject,omitempty"` // return (N bytes, injected error): N = 0 is a bare error, N > 0 an error that comes with data; the reader is healthy afterwards
 }
 
 // WriteStep scripts one Write call of the simulated writer.
@@ -151,9 +151,26 @@ func (r *simReader) Read(p []byte) (int, error) {
 	if r.k < len(r.script) {
 		st := r.script[r.k]
 		r.k++
-		if st.Inject {
+		if st.Inject && st.N == 0 {
 			r.fired["read_error_injected"]++
 			return 0, errInjectedRead
+		}
+		if st.Inject {
+			// io.Reader allows n > 0 together with a non-EOF error: the bytes count
+			if st.N < n {
+				n = st.N
+			}
+			if n > len(p) {
+				n = len(p)
+			}
+			copy(p, r.data[r.pos:r.pos+n])
+			r.pos += n
+			if n > 0 {
+				r.fired["read_error_with_data"]++
+			} else {
+				r.fired["read_error_injected"]++
+			}
+			return n, errInjectedRead
 		}
 		if st.N == 0 {
 			r.fired["zero_len_read"]++
@@ -386,19 +403,36 @@ func buildValue(text []byte, target int, typeSeed uint64) (std any, fork any, ok
 	if err := dec.Decode(t); err != nil {
 		return nil, nil, false
 	}
-	v := reflect.ValueOf(t).Elem().Interface()
+	ms, mutate := mutateSeed(text, typeSeed)
 	switch target {
 	case TAny, TMapAny, TSliceAny:
-		return v, forkDyn(v), true
-	case TStruct, TMapStruct, TPtrStruct, TStatic, TArray3:
+		v := reflect.ValueOf(t).Elem().Interface()
+		fv := forkDyn(v)
+		if mutate {
+			// the same seed and traversal on both copies (they differ in the Number type only)
+			pv, pf := reflect.New(reflect.TypeOf(t).Elem()), reflect.New(reflect.TypeOf(t).Elem())
+			pv.Elem().Set(reflect.ValueOf(t).Elem())
+			if fv != nil {
+				pf.Elem().Set(reflect.ValueOf(fv))
+			}
+			mutateValue(pv.Elem(), gen.NewR(ms), 0)
+			mutateValue(pf.Elem(), gen.NewR(ms), 0)
+			return pv.Elem().Interface(), pf.Elem().Interface(), true
+		}
+		return v, fv, true
+	case TStruct, TMapStruct, TPtrStruct, TStatic, TArray3, TPtrPtrInt, TFlakySlice, TFlakyMap:
 		// struct fields of interface type may hold Numbers: decode again without UseNumber
 		t2 := NewTarget(target, typeSeed)
 		if err := sj.Unmarshal(text, t2); err != nil {
 			return nil, nil, false
 		}
+		if mutate {
+			mutateValue(reflect.ValueOf(t2).Elem(), gen.NewR(ms), 0)
+		}
 		v2 := reflect.ValueOf(t2).Elem().Interface()
 		return v2, v2, true
 	}
+	v := reflect.ValueOf(t).Elem().Interface()
 	return v, v, true
 }
 
@@ -515,6 +549,9 @@ func genScript(r *gen.R, payloadLen int) []ReadStep {
 		case x < 10:
 			sc = append(sc, ReadStep{Inject: true})
 			zero = 0
+		case x < 14:
+			sc = append(sc, ReadStep{Inject: true, N: readSizes[r.Intn(len(readSizes))]})
+			zero = 0
 		default:
 			sc = append(sc, ReadStep{N: readSizes[r.Intn(len(readSizes))]})
 			zero = 0
@@ -541,6 +578,9 @@ func genCfg(r *gen.R) sim.Cfg {
 		c.Evict = 200
 	}
 	c.MapOrder = r.Intn(simrt.NumMapPolicies)
+	if r.P(300) {
+		c.Intrude = []int{100, 300, 1000}[r.Intn(3)]
+	}
 	return c
 }
 
